@@ -188,16 +188,20 @@ def run_one(m):
             for j in range(m["line"], m["upto"]):
                 lines[j] = ""
         open(p, "w").write("\n".join(lines))
-        r = subprocess.run(["cargo", "check", "--offline", "-q", "--lib"], cwd=repo, env=env, stdout=subprocess.PIPE, stderr=subprocess.PIPE, text=True)
-        if r.returncode != 0:
+        r = None if m.get("recheck") else subprocess.run(["cargo", "check", "--offline", "-q", "--lib"], cwd=repo, env=env, stdout=subprocess.PIPE, stderr=subprocess.PIPE, text=True)
+        if r is not None and r.returncode != 0:
             res["status"] = "nocompile"
             return res
         try:
+            if m.get("recheck"):
+                raise KeyError
             r = subprocess.run(["cargo", "test", "--offline", "-q", "--lib", "--tests", "--no-fail-fast", "--", "--test-threads", "4"], cwd=repo, env=env,
                                stdout=subprocess.PIPE, stderr=subprocess.PIPE, text=True, timeout=240)
             if r.returncode != 0:
                 res["status"] = "killed-by-tests"
                 return res
+        except KeyError:
+            pass
         except subprocess.TimeoutExpired:
             subprocess.run(["pkill", "-f", d + "/target"], stdout=subprocess.DEVNULL, stderr=subprocess.DEVNULL)
             res["status"] = "killed-by-tests"
@@ -237,6 +241,11 @@ def run(args):
         muts = [m for m in muts if sub in m["file"]]
     done = set()
     rp = os.path.join(WORK, "results.jsonl")
+    if "--recheck" in args:
+        # survivors of an earlier run, checks only (no cargo test), results to recheck.jsonl
+        sv = set(json.loads(l)["id"] for l in open(rp) if json.loads(l)["status"] == "survivor")
+        muts = [dict(m, recheck=True) for m in muts if m["id"] in sv]
+        rp = os.path.join(WORK, "recheck.jsonl")
     if os.path.exists(rp):
         for ln in open(rp):
             try:
@@ -259,9 +268,9 @@ def run(args):
         shutil.rmtree(os.path.join(WORK, "w%d" % k), ignore_errors=True)
 
 
-def report():
+def report(name="results.jsonl"):
     from collections import Counter
-    rs = [json.loads(l) for l in open(os.path.join(WORK, "results.jsonl"))]
+    rs = [json.loads(l) for l in open(os.path.join(WORK, name))]
     print(Counter(r["status"] for r in rs))
     sv = [r for r in rs if r["status"] == "survivor"]
     print("survivors:", len(sv), "reported by a check:", sum(1 for r in sv if r["fired"]), "crashes:", sum(1 for r in sv if r["crashed"]))
@@ -276,5 +285,7 @@ if __name__ == "__main__":
         gen()
     elif a and a[0] == "run":
         run(a[1:])
+    elif a and a[0] == "report-recheck":
+        report("recheck.jsonl")
     else:
         report()
